@@ -419,6 +419,8 @@ def plan(tier):
             cases += list(batches(tc, L, P, rpc, depth1_ops(L, P, tier, full), size=400 if not full else 4000))
     # longer images: several line groups per selection, strides up to 7 against group sizes 2..8
     mid = [("IU2", 11, 2, (3, 4))] if tier == "quick" else [("IU2", 11, 2, (2, 3, 4, 5, 8)), ("C*8", 13, 2, (2, 3, 4, 5, 6, 7, 8)), ("IU2", 16, 1, (4, 8))]
+    # widths at which the pixel payload is exactly as long as the record prefix (layout-detection code may confuse the two)
+    mid += [("IU2", 5, 96, (2, 3)), ("C*8", 5, 68, (2, 6))] if tier == "quick" else [("IU2", 5, 96, (1, 2, 3, 6)), ("C*8", 5, 68, (1, 2, 3, 6)), ("IU2", 6, 48, (2, 4)), ("C*8", 6, 136, (2, 4))]
     for tc, L, P, rpcs in mid:
         rows = ints(L) + slices(L, steps=(None, 1, -1, 2, -2, 3, -3, 4, -4, 5, -5, 7, -7)) + arrays(L) + (masks(L) if L <= 13 else [])
         ops = [["isel", r, None] for r in rows] + [["isel", r, ["i", P - 1]] for r in rows[:: 7]]
